@@ -63,9 +63,14 @@ PendingReg == UNION {{<<pend[t][i].h, pend[t][i].w>> : i \in {j \in 1..Len(pend[
 ----------------------------------------------------------------------------
 \* API calls
 
+\* does the call that starts at line l end with an exception?  (the next `ret` of this thread for this operation)
+WillFail == LET idx == {j \in (l + 1)..Len(Tr) : Tr[j].e = "ret" /\ Tr[j].t = Me /\ Tr[j].op = Tr[l].op} IN
+            idx # {} /\ ~Tr[CHOOSE j \in idx : \A k \in idx : j <= k].ok
+
 Call == /\ Line("call") /\ Consume
         /\ pend' = [pend EXCEPT ![Me] = Append(@, [op |-> Tr[l].op, h |-> Get(Tr[l], "h", 0), w |-> Get(Tr[l], "w", 0),
-                                                   done |-> FALSE, removed |-> {}, ems |-> {}, newem |-> 0])]
+                                                   done |-> FALSE, removed |-> {}, ems |-> {}, newem |-> 0,
+                                                   wf |-> WillFail, fok |-> FALSE])]
         \* a registering call lifts the ban on its pair at its call
         /\ banned' = IF Tr[l].op \in {"schedule", "add"} THEN banned \ {<<Tr[l].h, Tr[l].w>>} ELSE banned
         /\ stopCalled' = (stopCalled \/ Tr[l].op = "stop")
@@ -122,9 +127,29 @@ Lin(t) ==
        IN emOf' = Restrict(e1, DOMAIN e1 \cap sched')
     /\ UNCHANGED <<tid, l, stopCalled, stopRet, qp, Q, banned, deadEm, viol>>
 
-\* a call that raised has no effect at all (C13); it needs no linearization point
+\* A call may only raise when the reference map says so (C13: the observer behaves like a simple map): at some moment
+\* between call and return - placed by TLC - unschedule(w) finds w not scheduled, remove(h, w) finds the pair not
+\* registered, start() finds the observer started before, join() finds it never started (or is called by the observer
+\* thread itself); schedule() / start() may also raise the error injected by the harness (an emitter that cannot be
+\* created or started: OSError).  add, unschedule_all and stop never raise.
+ObserverThread == "BaseObserver#1"
+FailLegit(c, t) ==
+    CASE c.op = "unschedule" -> c.w \notin sched
+      [] c.op = "remove" -> ~(c.w \in DOMAIN reg /\ c.h \in reg[c.w])
+      [] c.op = "start" -> started
+      [] c.op = "join" -> ~started \/ t = ObserverThread
+      [] OTHER -> FALSE
+LinFail(t) == /\ LinOK /\ HasTop(t) /\ Top(t).wf /\ ~Top(t).fok /\ ~Top(t).done
+              /\ FailLegit(Top(t), t)
+              /\ pend' = SetTop(t, [Top(t) EXCEPT !.fok = TRUE])
+              /\ UNCHANGED <<tid, l, reg, sched, emOf, started, stopCalled, stopRet, qp, Q, cur, banned, deadEm, viol>>
+
+\* a call that raised has no effect at all (C13); it needs no linearization point, but a reason (blocking clause
+\* P_C13_CallOutcomeMatchesMap)
 RetFail == /\ Line("ret") /\ ~Tr[l].ok /\ Consume
            /\ HasTop(Me) /\ Top(Me).op = Tr[l].op /\ ~Top(Me).done
+           /\ \/ Top(Me).fok
+              \/ (Top(Me).op \in {"schedule", "start"} /\ Get(Tr[l], "exc", "") = "OSError")
            /\ pend' = [pend EXCEPT ![Me] = SubSeq(@, 1, Len(@) - 1)]
            /\ UNCHANGED <<reg, sched, emOf, started, stopCalled, stopRet, qp, Q, cur, banned, deadEm, viol>>
 
@@ -230,7 +255,7 @@ Other == /\ l <= Len(Tr) /\ Tr[l].e \in {"thread_start", "thread_exit", "note"} 
 Next == TLCGet(BIG + tid) = 0 /\
         (Call \/ RetFail \/ RetOk \/ EmCreated \/ Queued \/ Cb \/ Quiescent \/ Probe \/ Final \/ Deadlock \/ Uncaught \/ Other
          \/ DispStart \/ DispEnd
-         \/ (\E t \in AllThreads : Lin(t)) \/ (\E e \in AllEms : LinQueue(e)))
+         \/ (\E t \in AllThreads : Lin(t) \/ LinFail(t)) \/ (\E e \in AllEms : LinQueue(e)))
 Spec == Init /\ [][Next]_vars
 
 Report == Progress(tid, l, Len(Tr), viol)
